@@ -1435,6 +1435,9 @@ impl<'a> Parser<'a> {
             vec![]
         };
 
+        // `FILTER (WHERE ..)`; a FILTER that is not followed by `(WHERE` is not this clause
+        // (it may be an alias) and is left in place
+        let index = self.index;
         let filter = if self.dialect.supports_filter_during_aggregation()
             && self.parse_keyword(Keyword::FILTER)
             && self.consume_token(&Token::LParen)
@@ -1444,6 +1447,7 @@ impl<'a> Parser<'a> {
             self.expect_token(&Token::RParen)?;
             filter
         } else {
+            self.index = index;
             None
         };
 
